@@ -21,6 +21,11 @@ type T3 struct{ Tok int64 }
 type T4 struct{ Tok int64 }
 type T5 struct{ Tok int64 }
 
+// L0 is a slice type used as an ordinary single value (its first element
+// carries the token): `[]*T0` as a plain dependency must never be confused
+// with the value group of *T0, whose parameters have the same Go type.
+type L0 = []*T0
+
 // Non-pointer value types (zero value is S0{0}).
 type S0 struct{ Tok int64 }
 type S1 struct{ Tok int64 }
@@ -75,6 +80,7 @@ func buildPool() map[string]*typeInfo {
 	regPtr(pool, "T5", func(t int64) *T5 { return &T5{t} })
 	pool["S0"] = &typeInfo{Name: "S0", RT: reflect.TypeOf(S0{}), mk: func(t int64) reflect.Value { return reflect.ValueOf(S0{t}) }}
 	pool["S1"] = &typeInfo{Name: "S1", RT: reflect.TypeOf(S1{}), mk: func(t int64) reflect.Value { return reflect.ValueOf(S1{t}) }}
+	pool["L0"] = &typeInfo{Name: "L0", RT: reflect.TypeOf(L0(nil)), mk: func(t int64) reflect.Value { return reflect.ValueOf(L0{&T0{t}}) }}
 	pool["I0"] = &typeInfo{Name: "I0", RT: reflect.TypeOf((*I0)(nil)).Elem(), Iface: true}
 	pool["I1"] = &typeInfo{Name: "I1", RT: reflect.TypeOf((*I1)(nil)).Elem(), Iface: true}
 	pool["I2"] = &typeInfo{Name: "I2", RT: reflect.TypeOf((*I2)(nil)).Elem(), Iface: true}
@@ -89,7 +95,7 @@ func init() {
 }
 
 // ConcreteTypes / IfaceTypes in deterministic order.
-var ConcreteTypes = []string{"T0", "T1", "T2", "T3", "T4", "T5", "S0", "S1"}
+var ConcreteTypes = []string{"T0", "T1", "T2", "T3", "T4", "T5", "S0", "S1", "L0"}
 var IfaceTypes = []string{"I0", "I1", "I2"}
 
 // Impls lists for each interface the concrete pool types implementing it.
@@ -101,7 +107,7 @@ var Impls = map[string][]string{
 
 // IfacesOf lists interfaces implemented by a concrete type.
 var IfacesOf = map[string][]string{
-	"T0": {"I0", "I1"}, "T1": {"I0"}, "T2": {"I1", "I2"}, "T3": {"I2"}, "T4": {}, "T5": {"I0", "I1", "I2"}, "S0": {}, "S1": {},
+	"T0": {"I0", "I1"}, "T1": {"I0"}, "T2": {"I1", "I2"}, "T3": {"I2"}, "T4": {}, "T5": {"I0", "I1", "I2"}, "S0": {}, "S1": {}, "L0": {},
 }
 
 func implements(concrete, iface string) bool {
@@ -193,6 +199,11 @@ func tokOf(v reflect.Value) (tok int64, ok bool) {
 		return x.Tok, true
 	case S1:
 		return x.Tok, true
+	case L0:
+		if len(x) == 0 || x[0] == nil {
+			return 0, true
+		}
+		return x[0].Tok, true
 	}
 	return 0, false
 }
